@@ -45,6 +45,12 @@ class Kafka(Scenario):
         p = self.params
         self.broker = fk.Broker("t", p["nparts"])
         self.broker.clock = self.loop.time
+        self.opts = opts = tuple(p.get("opts", ()))
+        self.broker.keyed = "keys" in opts
+        if "cfail" in opts:
+            self.broker.fail_committed = 1
+        if "wm0" in opts:
+            self.broker.fail_watermark = (0,)
         fk.install(self.broker)
         self._install_clock()
         for part, off in p.get("committed", ()):
@@ -74,7 +80,26 @@ class Kafka(Scenario):
             params["auto.offset.reset"] = p["reset"]
         return Stream.from_kafka_batched("t", params, poll_interval=POLL, npartitions=p["npartitions"],
                                          refresh_partitions=p["refresh"], max_batch_size=p["max_batch"],
-                                         asynchronous=True, loop=self.ioloop)
+                                         asynchronous=True, loop=self.ioloop, keys="keys" in p.get("opts", ()))
+
+    def make_sink_fn(self, kind, name):
+        inner = super().make_sink_fn(kind, name)
+        if "keys" not in self.params.get("opts", ()):
+            return inner
+        return lambda batch: inner(self._unkey(batch))
+
+    def _unkey(self, batch):
+        """keys=True delivers {'key':..., 'value':...}: check the key, hand the values to the ordinary oracle"""
+        out = []
+        for m in batch:
+            if not isinstance(m, dict) or set(m) != {"key", "value"}:
+                self.violations.append(Violation("message-shape", self.site(), "keys=True", repr(m)[:80]))
+                continue
+            off = _parse(m["value"])[1]
+            if m["key"] != (b"k" if off % 2 == 0 else None):
+                self.violations.append(Violation("message-shape", self.site(), "wrong-key", repr(m)[:80]))
+            out.append(m["value"])
+        return tuple(out)
 
     def finish(self):
         fk.uninstall()
@@ -113,7 +138,7 @@ class Kafka(Scenario):
         evs = []
         if self.plan:
             nxt = self.plan[0]
-            evs.append(("add_partition" if nxt == "A" else "produce(%s)" % nxt, self._produce))
+            evs.append(("add_partition" if nxt in ("A", "AA") else "produce(%s)" % nxt, self._produce))
         evs.append(("crash", self._crash))
         return evs
 
@@ -127,8 +152,9 @@ class Kafka(Scenario):
 
     def _produce(self):
         nxt = self.plan.pop(0)
-        if nxt == "A":
-            self.broker.add_partition()
+        if nxt in ("A", "AA"):
+            for _ in nxt:          # "AA": two partitions appear between two polls
+                self.broker.add_partition()
             self.log.append(("add_partition", "broker", self.loop.time(), len(self.broker.parts)))
             return
         off = len(self.broker.parts[nxt])
@@ -157,7 +183,8 @@ class Kafka(Scenario):
         self.committed_at_crash = dict(self.broker.committed)
         self.high_at_restart = [len(p) for p in self.broker.parts]
         src2 = self._source2()
-        src2.sink(lambda batch: self.log.append(("in2", "S2", self.loop.time(), tuple(batch))))
+        keyed = "keys" in self.params.get("opts", ())
+        src2.sink(lambda batch: self.log.append(("in2", "S2", self.loop.time(), self._unkey(batch) if keyed else tuple(batch))))
         src2.start()
         self.src2 = src2
 
@@ -169,7 +196,7 @@ class Kafka(Scenario):
             params["auto.offset.reset"] = p["reset"]
         return Stream.from_kafka_batched("t", params, poll_interval=POLL, npartitions=None,
                                          refresh_partitions=p["refresh"], max_batch_size=p["max_batch"],
-                                         asynchronous=True, loop=self.ioloop)
+                                         asynchronous=True, loop=self.ioloop, keys="keys" in p.get("opts", ()))
 
     # ---- oracle -----------------------------------------------------------------------
     def check_step(self):
@@ -269,6 +296,8 @@ class Kafka(Scenario):
             pos2[part] = hi + 1
         if order_ok:
             for part, msgs in enumerate(self.broker.parts):
+                if part in self.broker.fail_watermark:
+                    continue        # the broker never answers for this partition: nothing can be demanded of it
                 c = self.committed_at_crash.get((GROUP, part))
                 known_position = (c is not None and c >= 0) or p["reset"] == "earliest"
                 if not known_position:
@@ -300,9 +329,10 @@ class Kafka(Scenario):
 
 
 def factory(key):
-    consumer, max_batch, nparts, npartitions, refresh, reset, committed, pre, plan, horizon = key
+    consumer, max_batch, nparts, npartitions, refresh, reset, committed, pre, plan, horizon = key[:10]
+    opts = tuple(key[10].split("+")) if len(key) > 10 else ()
     return lambda: Kafka(consumer=consumer, max_batch=max_batch, nparts=nparts, npartitions=npartitions, refresh=refresh,
-                         reset=reset, committed=committed, pre=pre, plan=plan, horizon=horizon)
+                         reset=reset, committed=committed, pre=pre, plan=plan, horizon=horizon, opts=opts)
 
 
 def plan(ctx):
@@ -318,6 +348,14 @@ def plan(ctx):
         jobs.append(((consumer, 1, 2, 2, True, "latest", ((1, 0),), (1,), (0, 1), 2.0), 0))
         # reset=latest: a partition added later is still read from its beginning, old messages are not delivered
         jobs.append(((consumer, 2, 1, None, True, "latest", (), (0,), ("A", 1, 1), 2.0), 0))
+    for consumer in ("sync", "direct"):
+        # keys=True (keyed and unkeyed messages mixed); two partitions appearing at once; a transient committed() failure;
+        # the reset position left to its documented default (latest); a partition whose watermark query always fails
+        jobs.append(((consumer, 2, 1, None, False, "earliest", (), (0,), (0, 0), 2.0, "keys"), 0))
+        jobs.append(((consumer, 2, 1, None, True, "earliest", (), (0,), ("AA", 2, 1), 2.0), 0))
+        jobs.append(((consumer, 2, 1, 1, False, "earliest", ((0, 1),), (0, 0), (0,), 2.0, "cfail"), 0))
+        jobs.append(((consumer, 2, 1, None, False, None, (), (0, 0), (0,), 2.0), 0))
+        jobs.append(((consumer, 2, 2, None, False, "earliest", (), (1,), (0, 1), 2.0, "wm0"), 0))
     if T:
         # four messages / a longer horizon, deviation bound 0 (a crash is deviation-free everywhere)
         for consumer in ("sync", "buffer", "direct"):
